@@ -26,20 +26,31 @@ def pause_execution(
         pause_time=int(time.time() * 1000),
     )
 
-    conn.execute(
-        """
+    # A finished execution stays finished: pausing must never overwrite a
+    # completed status (a pause request can race with the last CompleteWorkflow).
+    completed = [s.name for s in WorkflowStatus if s.is_complete]
+    placeholders = ", ".join(f":done_{i}" for i in range(len(completed)))
+    params: dict[str, object] = {
+        "id": execution_id,
+        "status": WorkflowStatus.PAUSED.name,
+        "paused": json.dumps(paused_to_dict(paused)),
+    }
+    params.update({f"done_{i}": name for i, name in enumerate(completed)})
+    cursor = conn.execute(
+        f"""
         UPDATE pipeline_executions SET
             status = :status,
             paused = :paused
-        WHERE id = :id
+        WHERE id = :id AND status NOT IN ({placeholders})
         """,
-        {
-            "id": execution_id,
-            "status": WorkflowStatus.PAUSED.name,
-            "paused": json.dumps(paused_to_dict(paused)),
-        },
+        params,
     )
     conn.commit()
+    if cursor.rowcount == 0:
+        logger.warning(
+            "Pause had no effect for execution %s - not found or already complete",
+            execution_id,
+        )
 
 
 def resume_execution(
